@@ -32,7 +32,9 @@
 //!   SD <kind> <depth>                                push_old_param of a Param tree nested <depth> containers deep; kind v|mix
 //!   SM <bo> <len1> <len2> <extra>                    body = byte arrays of len1, len2 (0 = absent) and <extra> single bytes;
 //!                                                    wire::marshal::marshal (header + length check)
-//!   NB <n>                                           convenience: nested-variant bomb of n levels through VR/UP/BP (see eval_nb)
+//!   LB <entry> <bo> <phase> <L> <present>            an array whose length field says L with <present> zero bytes of content
+//!                                                    actually there (built here: 64 MiB do not go through the line protocol);
+//!                                                    entry = vr:<sig> | up:<sig> | ut:<type>, sig/type one of ay at ab as a{yy}
 use rbverif::wirelib::{Fd, Path, Sig, Var, F64};
 use rbverif::{hex, unhex};
 use rustbus::message_builder::{MarshalledMessage, MarshalledMessageBody};
@@ -578,6 +580,63 @@ fn eval(line: &str) -> String {
             let mut hdr = Vec::new();
             let r = rustbus::wire::marshal::marshal(&msg, std::num::NonZeroU32::new(1).unwrap(), &mut hdr);
             format!("{} pushed={} hdr={} body={} total={}", if r.is_ok() { "ok" } else { "err" }, pushed, hdr.len(), msg.get_buf().len(), hdr.len() + msg.get_buf().len())
+        }
+        "LB" => {
+            let (kind, what) = toks[1].split_once(':').unwrap();
+            let bo = bo_of(toks[2]);
+            let (phase, l, present) = (num(3), num(4), num(5));
+            let sig = match what {
+                "&[u8]" | "Cow[u8]" => "ay",
+                "Cow[u64]" => "at",
+                x => x,
+            };
+            let align = match sig {
+                "ay" => 1,
+                "ab" | "as" => 4,
+                _ => 8,
+            };
+            let mut bytes = Vec::with_capacity(present + 16);
+            let lf = l as u32;
+            bytes.extend_from_slice(&match bo {
+                ByteOrder::LittleEndian => lf.to_le_bytes(),
+                ByteOrder::BigEndian => lf.to_be_bytes(),
+            });
+            while bytes.len() % align != 0 {
+                bytes.push(0);
+            }
+            let start = bytes.len();
+            bytes.resize(start + present, 0);
+            let placed = Placed::new(&bytes, phase);
+            drop(bytes);
+            let buf = placed.get();
+            match kind {
+                "vr" => {
+                    let t = signature::Type::parse_description(sig).unwrap().remove(0);
+                    let m = Meter::start();
+                    match rustbus::wire::validate_raw::validate_marshalled(bo, 0, buf, &t) {
+                        Ok(n) => format!("ok used={} {}", n, m.stop()),
+                        Err(_) => format!("err {}", m.stop()),
+                    }
+                }
+                "up" => {
+                    let t = signature::Type::parse_description(sig).unwrap().remove(0);
+                    let m = Meter::start();
+                    let mut ctx = UnmarshalContext::new(&[], bo, buf, 0);
+                    let r = rustbus::wire::unmarshal::container::unmarshal_with_sig(&t, &mut ctx);
+                    let s = if r.is_ok() { format!("ok used={}", buf.len() - ctx.remainder().len()) } else { "err".to_string() };
+                    let a = m.stop();
+                    drop(r);
+                    format!("{} {}", s, a)
+                }
+                _ => {
+                    let fds: Vec<UnixFd> = Vec::new();
+                    if let Some(r) = extra_types!(what, ut, &fds, bo, buf, 0) {
+                        return r;
+                    }
+                    let mut v = UtV { bo, buf, offset: 0, fds: &fds };
+                    dispatch04(what, &mut v).unwrap_or_else(|| "NOTYPE".into())
+                }
+            }
         }
         "NOP" => "ok".into(),
         x => format!("badop {}", x),
